@@ -55,12 +55,13 @@ void h_once(void)
 	for (i = 0; i < NTHR; ++i) VP_ASSERT(seen[i] == 42, "every caller that returned saw the initialiser's effects");
 }
 
+static size_t ret_v[3], ret_w[3], ret_d[3];
 static void thr_ctr(int id)
 {
 	size_t v = mtAtomicIncr(&ctr);
 	size_t w = mtAtomicIncr(&ctr);
-	(void)v; (void)w;
-	mtAtomicDecr(&ctr);
+	ret_v[id] = v; ret_w[id] = w;
+	ret_d[id] = mtAtomicDecr(&ctr);
 	FENCE(); done[id] = 1;
 }
 
@@ -96,4 +97,32 @@ void h_cas(void)
 	for (i = 0; i < NTHR; ++i) w += cas_won[i];
 	VP_WITNESS();
 	VP_ASSERT(w == 1 && ctr == 7, "compare-and-swap: exactly one thread wins");
+}
+
+/* return values: with increments only, the value returned by an atomic increment is the value IT produced,
+ * so the 2*NTHR returns are pairwise distinct (they are exactly 1..2*NTHR) */
+static void thr_inc2(int id)
+{
+	ret_v[id] = mtAtomicIncr(&ctr);
+	ret_w[id] = mtAtomicIncr(&ctr);
+	FENCE(); done[id] = 1;
+}
+void h_atomic_ret(void)
+{
+	int i, j, distinct = 1;
+	VP_INPUT();
+	ctr = 0;
+	SPAWN(1, thr_inc2(0)); SPAWN(2, thr_inc2(1));
+#if NTHR >= 3
+	SPAWN(3, thr_inc2(2));
+#endif
+	JOIN_ALL();
+	VP_WITNESS();
+	VP_ASSERT(ctr == 2 * NTHR, "no lost update");
+	for (i = 0; i < NTHR; ++i)
+	{
+		if (ret_v[i] == ret_w[i] || ret_v[i] < 1 || ret_w[i] > 2 * NTHR) distinct = 0;
+		for (j = 0; j < NTHR; ++j) if (i != j && (ret_v[i] == ret_v[j] || ret_v[i] == ret_w[j] || ret_w[i] == ret_w[j])) distinct = 0;
+	}
+	VP_ASSERT(distinct, "every atomic increment returns the value it produced (returns pairwise distinct, in 1..2*NTHR)");
 }
